@@ -22,7 +22,7 @@ def tags_for(ev, clauses):
     c = ev["case"]
     worst = max(list(ev.get("sum_ppb", [])) + [ev.get("expm_ppb", 0), ev.get("zero_ppb", 0), ev.get("lazy_ppb", 0), ev.get("hermitian_ppb", 0)] + [0])
     return {"clauses": sorted(clauses), "k": ev["k"], "tilted": c["orientation"] != 1, "deviation": "below_1e-3" if worst < 10 ** 6 else "1e-3_or_more",
-            "raised": bool(ev.get("raised"))}
+            "out_of_plane_beams": bool(ev.get("out_of_plane_beams", False)), "raised": bool(ev.get("raised"))}
 
 
 def self_test(ctx: Ctx):
